@@ -91,7 +91,9 @@ pub fn transpile_file(path: &str, new_path: &str) -> Result<()> {
     let mut current_function_name: Option<String> = None;
     let mut current_function_pb: Option<ProgressBar> = None;
 
-    while let Ok(size) = reader.read_line(&mut buffer) {
+    loop {
+        let size = reader.read_line(&mut buffer)?;
+
         if size == 0 {
             break;
         }
